@@ -1,3 +1,4 @@
+import SqfModel.SortKey
 import SqfModel.VM.Stack
 import SqfModel.Print
 /-!
@@ -447,15 +448,32 @@ def wouldCycleMap (m : M) (id : Nat) (v : Val) : Bool :=
 
 def truncInt (d : Dec) : Int := Dec.trunc d
 
+/-- `d_array::max_size`: the largest number of elements a script may ask an array to have -/
+def maxArraySize : Nat := 9999999
+
+def roundIdx (d : Dec) : Int :=
+  -- std::round on an exact decimal: round half away from zero — the magnitude plus a half, cut off, with the sign
+  let a : Dec := { d with neg := false }
+  let twice := Dec.add (Dec.mul a (Dec.ofNat 2)) (Dec.ofNat 1)
+  let r := (Dec.trunc twice) / 2
+  if d.neg then -r else r
+
+/-- a scalar where a whole number is expected (`util::float_to_int` / `round_to_int`): NaN counts as
+    negative; the saturation at the ends of `int` changes nothing the callers can observe (sizes are below it) -/
+def intOfVal (round : Bool) : Val → Option Int
+  | .num d => some (if round then roundIdx d else Dec.trunc d)
+  | .nan => some (-1)
+  | _ => none
+
 def bop_set (l r : Val) (m : M) : Option OpRes :=
   match l, r with
   | .ref id, .ref p =>
     let ps := m.arr p
     if ps.length != 2 then pure' (m.log Diag.runtime_ExpectedArraySizeMissmatch) .nil
-    else match nth ps 0 with
-      | .num d =>
-        let idx := truncInt d
+    else match intOfVal false (nth ps 0) with
+      | some idx =>
         if idx < 0 then pure' (m.log Diag.runtime_NegativeIndex) .nil
+        else if idx.toNat ≥ maxArraySize then pure' (m.log Diag.runtime_IndexOutOfRange) .nil
         else
           let i := idx.toNat
           let xs := m.arr id
@@ -465,7 +483,7 @@ def bop_set (l r : Val) (m : M) : Option OpRes :=
             -- rolled back to the old element; the growth stays
             pure' ((m.setArr id xs1).log Diag.runtime_ArrayRecursion) .nil
           else pure' (m.setArr id (xs1.set i v)) .nil
-      | _ => pure' (m.log Diag.runtime_ExpectedArrayTypeMissmatch) .nil
+      | none => pure' (m.log Diag.runtime_ExpectedArrayTypeMissmatch) .nil
   | .mapref id, .ref p =>
     let ps := m.arr p
     if ps.length != 2 then pure' (m.log Diag.runtime_ExpectedArraySizeMissmatch) .nil
@@ -507,6 +525,7 @@ def bop_deleteat (l r : Val) (m : M) : Option OpRes :=
     if idx ≥ (xs.length : Int) then pure' (m.log Diag.runtime_IndexOutOfRangeWeak) .nil
     else if idx < 0 then pure' (m.log Diag.runtime_NegativeIndexWeak) .nil
     else pure' (m.setArr id (xs.eraseIdx idx.toNat)) (nth xs idx.toNat)
+  | .ref _, .nan => pure' (m.log Diag.runtime_NegativeIndexWeak) .nil
   | .mapref id, k =>
     let kv := m.map id
     match kv.find? (fun e => valueEq m.heap e.1 k) with
@@ -514,12 +533,96 @@ def bop_deleteat (l r : Val) (m : M) : Option OpRes :=
     | none => pure' m .nil
   | _, _ => none
 
+/-- `deleteRange`: the elements `from … to` (both rounded, `to` pulled up to `from` and down to the last
+    index) are removed; a range that starts behind the last element removes nothing -/
+def bop_deleterange (l r : Val) (m : M) : Option OpRes :=
+  match l, r with
+  | .ref id, .ref p =>
+    let ps := m.arr p
+    if ps.length != 2 then pure' (m.log Diag.runtime_ExpectedArraySizeMissmatch) .nil
+    else
+      match intOfVal true (nth ps 0), intOfVal true (nth ps 1) with
+      | some f, some t0 =>
+        let xs := m.arr id
+        let m1 := if f > t0 then m.log Diag.runtime_StartIndexExceedsToIndexWeak else m
+        let t1 := if f > t0 then f else t0
+        if f < 0 then pure' ((m1.log Diag.runtime_NegativeIndexWeak).log Diag.runtime_ReturningNil) .nil
+        else
+          let m2 := if t1 ≥ (xs.length : Int) then m1.log Diag.runtime_IndexOutOfRangeWeak else m1
+          let t2 : Int := if t1 ≥ (xs.length : Int) then (xs.length : Int) - 1 else t1
+          if f > t2 then pure' m2 .nil
+          else pure' (m2.setArr id (xs.take f.toNat ++ xs.drop (t2.toNat + 1))) .nil
+      | a, b =>
+        -- `check_type` reports every element that is no number
+        let m1 := if a.isNone then m.log Diag.runtime_ExpectedArrayTypeMissmatch else m
+        let m2 := if b.isNone then m1.log Diag.runtime_ExpectedArrayTypeMissmatch else m1
+        pure' m2 .nil
+  | _, _ => none
+
+/-! ### sort -/
+
+/-- the type of a value as far as `sort` and `check_type` tell values apart -/
+def typeTag : Val → Nat
+  | .nil => 0 | .num _ => 1 | .nan => 1 | .str _ => 2 | .ref _ => 3 | .bool _ => 4 | .code _ => 5 | .mapref _ => 6
+  | .ns _ => 7 | .script _ => 8 | .ifv _ => 9 | .whilev _ => 10 | .forv .. => 11 | .sw .. => 12 | .withv _ => 13
+  | .exc _ => 14 | .strace _ => 15 | .other _ => 16
+
+def atomOf : Val → SortKey.Atom
+  | .num d => .num d
+  | .nan => .nan
+  | .str s => .str s
+  | _ => .other
+
+/-- the key of an element: itself, or the elements of the array it is -/
+def sortKey (m : M) : Val → List SortKey.Atom
+  | .ref id => (m.arr id).map atomOf
+  | v => [atomOf v]
+
+/-- `sort`: numbers, strings, or arrays of the same shape, ascending or descending; anything else is
+    reported and left as it is. The order among equal keys is that of a stable sort (the implementation
+    does not promise one). -/
+def bop_sort (l r : Val) (m : M) : Option OpRes :=
+  match l, r with
+  | .ref id, .bool asc =>
+    let xs := m.arr id
+    if xs.length ≤ 1 then pure' m .nil
+    else
+      let t := typeTag (nth xs 0)
+      if t != 1 && t != 2 && t != 3 then pure' (m.log Diag.runtime_ExpectedArrayTypeMissmatch) .nil
+      else
+        -- every element of another type is reported
+        let bad := xs.filter (fun v => typeTag v != t)
+        if !bad.isEmpty then pure' (bad.foldl (fun mm _ => mm.log Diag.runtime_ExpectedArrayTypeMissmatch) m) .nil
+        else
+          -- arrays: the first one that has another shape than the first element stops the operator
+          let shape : List Nat := match nth xs 0 with | .ref f => (m.arr f).map typeTag | _ => []
+          let firstBad : Option (List Val) := if t == 3 then
+              (xs.filterMap (fun v => match v with | .ref k => some (m.arr k) | _ => none)).find? (fun ys => ys.map typeTag != shape)
+            else none
+          match firstBad with
+          | some ys =>
+            if ys.length != shape.length then pure' (m.log Diag.runtime_ExpectedArraySizeMissmatch) .nil
+            else
+              let n := ((ys.map typeTag).zip shape).countP (fun p => p.1 != p.2)
+              pure' ((List.range n).foldl (fun mm _ => mm.log Diag.runtime_ExpectedArrayTypeMissmatch) m) .nil
+          | none =>
+            let le := fun (a b : Val) =>
+              let c := SortKey.cmpKeys (sortKey m a) (sortKey m b)
+              if asc then decide (c ≤ 0) else decide (c ≥ 0)
+            pure' (m.setArr id (xs.mergeSort le)) .nil
+  | _, _ => none
+
 def bop_resize (l r : Val) (m : M) : Option OpRes :=
   match l, r with
   | .ref id, .num d =>
     let xs := m.arr id
-    let n := (truncInt d).toNat
-    pure' (m.setArr id (if n ≤ xs.length then xs.take n else xs ++ List.replicate (n - xs.length) .nil)) .nil
+    let i := truncInt d
+    if i < 0 then pure' (m.log Diag.runtime_NegativeSize) .nil
+    else if i.toNat > maxArraySize then pure' (m.log Diag.runtime_IndexOutOfRange) .nil
+    else
+      let n := i.toNat
+      pure' (m.setArr id (if n ≤ xs.length then xs.take n else xs ++ List.replicate (n - xs.length) .nil)) .nil
+  | .ref _, .nan => pure' (m.log Diag.runtime_NegativeSize) .nil
   | _, _ => none
 
 def uop_reverse (r : Val) (m : M) : Option OpRes :=
@@ -630,6 +733,49 @@ def uop_waituntil (r : Val) (m : M) : Option OpRes :=
 def uop_str (r : Val) (m : M) : Option OpRes :=
   pure' m (.str (strVal m.heap 10000 r))
 
+/-! ### format -/
+
+/-- number of a placeholder: its digits as a number, `none` standing for "more than any index" -/
+def placeholderNum (limit : Nat) : List B → Nat → Nat
+  | [], acc => acc
+  | c :: cs, acc => if acc ≤ limit then placeholderNum limit cs (acc * 10 + (c - 48)) else placeholderNum limit cs acc
+
+/-- the loop of `format` over the format string (`fuel` = its length + 1) -/
+def formatLoop (h : List (List Val)) (args : List Val) : Nat → List B → List B → List Nat → List B × List Nat
+  | 0, _, out, logs => (out, logs)
+  | f + 1, text, out, logs =>
+    let before := text.takeWhile (· != 37)
+    match text.dropWhile (· != 37) with
+    | [] => (out ++ before, logs)
+    | _ :: rest =>
+      -- rest: behind the '%'
+      match rest with
+      | [] => (out ++ before, logs ++ [Diag.runtime_FormatInvalidPlaceholder])
+      | c :: rest' =>
+        if !isDigit c then formatLoop h args f rest' (out ++ before) (logs ++ [Diag.runtime_FormatInvalidPlaceholder])
+        else
+          let digits := rest.takeWhile isDigit
+          let after := rest.dropWhile isDigit
+          let num := placeholderNum args.length digits 0
+          if num ≥ args.length then formatLoop h args f after (out ++ before) (logs ++ [Diag.runtime_IndexOutOfRangeWeak])
+          else
+            let piece := match args.getD num .nil with
+              | .str s => s
+              | v => strVal h 10000 v
+            formatLoop h args f after (out ++ before ++ piece) logs
+
+def uop_format (r : Val) (m : M) : Option OpRes :=
+  match r with
+  | .ref id =>
+    let args := m.arr id
+    match args with
+    | [] => pure' ((m.log Diag.runtime_ExpectedArrayToHaveElementsWeak).log Diag.runtime_ReturningEmptyString) (.str [])
+    | .str fmt :: _ =>
+      let res := formatLoop m.heap args (fmt.length + 1) fmt [] []
+      pure' (res.2.foldl (fun mm d => mm.log d) m) (.str res.1)
+    | _ :: _ => pure' ((m.log Diag.runtime_ExpectedArrayTypeMissmatchWeak).log Diag.runtime_ReturningEmptyString) (.str [])
+  | _ => none
+
 /-- `compile`: a parse failure raises the error flag without a diagnostic of its own (the parser has
     already logged) and yields nil -/
 def uop_compile (r : Val) (m : M) : Option OpRes :=
@@ -662,6 +808,7 @@ def unaryOp (n : Name) (r : Val) (m : M) : Option OpRes :=
   else if n == n!"comment" then uop_comment r m
   else if n == n!"sleep" then uop_sleep r m
   else if n == n!"str" then uop_str r m
+  else if n == n!"format" then uop_format r m
   else if n == n!"reverse" then uop_reverse r m
   else if n == n!"keys" then uop_keys r m
   else if n == n!"createhashmapfromarray" then uop_createhashmapfromarray r m
@@ -676,11 +823,6 @@ def unaryOp (n : Name) (r : Val) (m : M) : Option OpRes :=
 /-- the iteration constructs: push a frame over `code` with `_x` bound to the first element -/
 def pushIter (m : M) (code : List Instr) (vars : List (Name × Val)) (b : Beh) : Option OpRes :=
   frame' m (mkFrame code vars (some b))
-
-def roundIdx (d : Dec) : Int :=
-  -- std::round on an exact decimal: round half away from zero
-  let twice := Dec.add (Dec.mul d (Dec.ofNat 2)) { neg := d.neg, mant := 1, exp := 0 }
-  (Dec.trunc twice) / 2
 
 def bop__2b (l r : Val) (m : M) : Option OpRes :=
   match l, r with
@@ -829,27 +971,26 @@ def bop_select (l r : Val) (m : M) : Option OpRes :=
     if ps.length < 1 then pure' (m.log Diag.runtime_ExpectedMinimumArraySizeMissmatch) .nil
     else
       let m0 := if ps.length != 2 then m.log Diag.runtime_ExpectedArraySizeMissmatchWeak else m
-      match nth ps 0 with
-      | .num d0 =>
-        let start := roundIdx d0
+      match intOfVal true (nth ps 0) with
+      | some start =>
         let empty := fun (mm : M) => let (m', nid) := mm.alloc []; pure' m' (.ref nid)
         if start < 0 then empty ((m0.log Diag.runtime_NegativeIndexWeak).log Diag.runtime_ReturningEmptyArray)
         else if start > (vec.length : Int) then empty ((m0.log Diag.runtime_IndexOutOfRangeWeak).log Diag.runtime_ReturningEmptyArray)
         else if ps.length ≥ 2 then
-          match nth ps 1 with
-          | .num d1 =>
-            let len := roundIdx d1
+          match intOfVal true (nth ps 1) with
+          | some len =>
             if len < 0 then empty ((m0.log Diag.runtime_NegativeIndexWeak).log Diag.runtime_ReturningEmptyArray)
             else let (m', nid) := m0.alloc ((vec.drop start.toNat).take len.toNat); pure' m' (.ref nid)
-          | _ => pure' (m0.log Diag.runtime_ExpectedArrayTypeMissmatch) .nil
+          | none => pure' (m0.log Diag.runtime_ExpectedArrayTypeMissmatch) .nil
         else empty m0
-      | _ => pure' (m0.log Diag.runtime_ExpectedArrayTypeMissmatch) .nil
+      | none => pure' (m0.log Diag.runtime_ExpectedArrayTypeMissmatch) .nil
   | .ref id, .num d =>
     let xs := m.arr id
     let idx := roundIdx d
     if (xs.length : Int) < idx || idx < 0 then pure' (m.log Diag.runtime_IndexOutOfRange) .nil
     else if (xs.length : Int) == idx then pure' (m.log Diag.runtime_IndexEqualsRange) .nil
     else pure' m (nth xs idx.toNat)
+  | .ref _, .nan => pure' (m.log Diag.runtime_IndexOutOfRange) .nil
   | _, _ => none
 
 def bop_apply (l r : Val) (m : M) : Option OpRes :=
@@ -988,6 +1129,8 @@ def binaryOp (n : Name) (l r : Val) (m : M) : Option OpRes :=
   else if n == n!"pushbackunique" then bop_pushbackunique l r m
   else if n == n!"append" then bop_append l r m
   else if n == n!"deleteat" then bop_deleteat l r m
+  else if n == n!"deleterange" then bop_deleterange l r m
+  else if n == n!"sort" then bop_sort l r m
   else if n == n!"resize" then bop_resize l r m
   else if n == n!"in" then bop_in l r m
   else if n == n!"find" then bop_find l r m
